@@ -12,14 +12,14 @@
 EXTENDS Chain, Json, IOUtils
 Traces == JsonDeserialize(IOEnv.TRACE_FILE)    \* sequence of [opt |-> ..., events |-> <<...>>]
 VARIABLES tid, l
-tvars == <<opt, phase, i, pc, k, alphaVer, treeVer, cacheVers, elapsedPos, trace, ev, tid, l>>
+tvars == <<opt, phase, i, pc, k, alphaVer, treeVer, cacheVers, elapsedPos, trace, ev, whole, tid, l>>
 OptOf(t) == [burnin |-> t.opt.burnin, iters |-> t.opt.iters, thin |-> t.opt.thin, tmax |-> t.opt.tmax, conc |-> t.opt.conc,
              sub |-> t.opt.sub, ndp |-> t.opt.ndp, nprg |-> t.opt.nprg]
 TraceInit == /\ tid \in 1..Len(Traces) /\ l = 1
              /\ opt = OptOf(Traces[tid])
              /\ phase = IF opt.burnin > 0 THEN "burnin" ELSE "setup"
              /\ i = 0 /\ pc = "clear" /\ k = 0 /\ alphaVer = 0 /\ treeVer = 0 /\ cacheVers = {}
-             /\ elapsedPos = FALSE /\ trace = <<>> /\ ev = [name |-> "init"]
+             /\ elapsedPos = FALSE /\ trace = <<>> /\ ev = [name |-> "init"] /\ whole = TRUE
 Events == Traces[tid].events
 Matches(e, r) == /\ e.name = r.name
                  /\ (e.name = "sample_tree" => e.sampler = r.sampler)
@@ -29,5 +29,5 @@ TraceNext == /\ phase # "done"
              /\ \/ ev'.name = "skip" /\ l' = l
                 \/ ev'.name # "skip" /\ l <= Len(Events) /\ Matches(ev', Events[l]) /\ l' = l + 1
 Accepted == (phase = "done" /\ l = Len(Events) + 1) => PrintT(<<"MATCHED", tid>>)
-tview == <<opt, phase, i, pc, k, alphaVer, treeVer, cacheVers, elapsedPos, trace, tid, l>>
+tview == <<opt, phase, i, pc, k, alphaVer, treeVer, cacheVers, elapsedPos, trace, whole, tid, l>>
 =============================================================================
